@@ -29,6 +29,10 @@ sys.path.insert(0, os.path.dirname(os.path.dirname(os.path.abspath(__file__))))
 from vlib import extract, mutants  # noqa: E402
 
 OUT = os.path.join(extract.VERIF, "sweep")
+# SWEEP_BASE: a source tree to mutate instead of /repo (e.g. /repo reformatted with very wide lines, so that whole statements
+# and calls are single lines the line-based operators can reach); SWEEP_TAG names its result files
+BASE = os.environ.get("SWEEP_BASE", extract.REPO)
+TAG = os.environ.get("SWEEP_TAG", "")
 FILES = ["src/wasm.rs", "src/bank.rs", "src/staking.rs", "src/transactions.rs", "src/app.rs", "src/contracts.rs", "src/executor.rs",
          "src/addresses.rs", "src/api.rs", "src/checksums.rs", "src/app_builder.rs", "src/module.rs", "src/stargate.rs", "src/ibc.rs",
          "src/gov.rs", "src/custom_handler.rs", "src/prefixed_storage/mod.rs", "src/prefixed_storage/length_prefixed.rs",
@@ -69,7 +73,7 @@ def gen():
     os.makedirs(OUT, exist_ok=True)
     ms = []
     for f in FILES:
-        path = os.path.join(extract.REPO, f)
+        path = os.path.join(BASE, f)
         if not os.path.exists(path):
             continue
         lines, code = code_lines(path)
@@ -98,9 +102,11 @@ def gen():
                     if nl != l:
                         ms.append(dict(file=f, line=i, op="repl:%s" % pat, new=[nl]))
     ms += gen2()
+    if os.environ.get("SWEEP_BATCH3"):
+        ms += gen3()
     for n, m in enumerate(ms):
         m["id"] = "s%05d" % n
-    with open(os.path.join(OUT, "mutants.jsonl"), "w") as fh:
+    with open(os.path.join(OUT, TAG + "mutants.jsonl"), "w") as fh:
         for m in ms:
             fh.write(json.dumps(m) + "\n")
     print("generated", len(ms), "mutants over", len(FILES), "files")
@@ -111,7 +117,7 @@ def gen2():
     simple arguments of a one-line call swapped, `Some(x)` -> `None`, `.clone()` arguments of the same call swapped"""
     ms = []
     for f in FILES:
-        path = os.path.join(extract.REPO, f)
+        path = os.path.join(BASE, f)
         if not os.path.exists(path):
             continue
         lines, code = code_lines(path)
@@ -146,6 +152,78 @@ def gen2():
     return ms
 
 
+VARS = ["sender", "contract", "contract_addr", "addr", "address", "delegator", "validator", "recipient", "to_address", "from_address", "admin", "creator",
+        "new_admin", "src_validator", "dst_validator", "withdraw_addr", "delegator_addr", "receiver", "account", "key", "value", "start", "end", "lkey", "rkey",
+        "amount", "funds", "code_id", "new_code_id", "instance_id", "id", "payload", "data", "events", "msg", "response", "res", "namespace", "prefix", "order"]
+CHAIN_DROPS = ["filter", "rev", "trim", "skip", "take", "map_err", "to_lowercase", "to_uppercase", "normalize", "sort", "dedup", "transpose", "clone"]
+
+
+def fn_ranges(lines):
+    """[(first line, last line)] of function bodies, by indentation"""
+    out = []
+    for i, l in enumerate(lines):
+        m = re.match(r"^(\s*)(?:pub(?:\([a-z]+\))? )?(?:const )?fn \w+", l)
+        if m:
+            ind = len(m.group(1))
+            for j in range(i + 1, min(i + 400, len(lines))):
+                if lines[j].startswith(" " * ind + "}") and len(lines[j]) - len(lines[j].lstrip()) == ind:
+                    out.append((i, j))
+                    break
+    return out
+
+
+def gen3():
+    """third batch (meant for the wide-line base): a variable replaced by another one that is in scope in the same function
+    ("wrong variable of the same type" - the type checker sorts out the rest), one clause of a `&&` / `||` dropped, a call
+    dropped from a method chain, and the operators of batch 1 applied to every occurrence in the line, not only the first"""
+    ms = []
+    for f in FILES:
+        path = os.path.join(BASE, f)
+        if not os.path.exists(path):
+            continue
+        lines, code = code_lines(path)
+        codeset = {i for i, l in code}
+        for a, b in fn_ranges(lines):
+            body = "\n".join(lines[a:b + 1])
+            present = [v for v in VARS if re.search(r"\b%s\b" % v, body)]
+            for i in range(a + 1, b):
+                if i not in codeset:
+                    continue
+                l = lines[i]
+                if l.strip().startswith(("let ", "fn ", "pub fn ")) and "=" not in l:
+                    continue
+                for v in present:
+                    occ = [m for m in re.finditer(r"(?<![\w.])%s\b(?!\s*[:(])" % v, l)]
+                    # not the binding site of the variable itself
+                    occ = [m for m in occ if not re.search(r"(let (mut )?|\|\s*|\(\s*|, )$", l[:m.start()]) or "=" in l[:m.start()]]
+                    for m in occ[:2]:
+                        for w in present:
+                            if w != v:
+                                ms.append(dict(file=f, line=i, op="var:%s->%s" % (v, w), new=[l[:m.start()] + w + l[m.end():]]))
+                # one clause of a conjunction / disjunction dropped
+                for m in re.finditer(r" (&&|\|\|) ", l):
+                    left = re.search(r"([\w.!*&()\[\]:<>=' \"]+)$", l[:m.start()])
+                    if left and "if " in l:
+                        cond_start = l.index("if ") + 3
+                        ms.append(dict(file=f, line=i, op="drop-left-clause", new=[l[:cond_start] + l[m.end():]]))
+                for name in CHAIN_DROPS:
+                    for m in re.finditer(r"\.%s\(" % name, l):
+                        depth, j = 0, m.end() - 1
+                        while j < len(l):
+                            depth += (l[j] == "(") - (l[j] == ")")
+                            if depth == 0:
+                                break
+                            j += 1
+                        if j < len(l):
+                            ms.append(dict(file=f, line=i, op="drop-call:%s" % name, new=[l[:m.start()] + l[j + 1:]]))
+                for pat, rep in REPL:
+                    for m in list(re.finditer(pat, l))[1:4]:
+                        if '"' in l and pat in (r"\b0\b", r"\b1\b", r"\b2\b", r" - ", r" \+ ", r" < ", r" > "):
+                            continue
+                        ms.append(dict(file=f, line=i, op="repl+:%s" % pat, new=[l[:m.start()] + rep + l[m.end():]]))
+    return ms
+
+
 def apply(root, m):
     p = os.path.join(root, m["file"])
     with open(p) as fh:
@@ -160,7 +238,7 @@ def static_one(m):
     tmp = tempfile.mkdtemp(prefix="cwmt-sweep-")
     res = {"id": m["id"], "status": "?", "rules": []}
     try:
-        shutil.copytree(os.path.join(extract.REPO, "src"), os.path.join(tmp, "src"))
+        shutil.copytree(os.path.join(BASE, "src"), os.path.join(tmp, "src"))
         for f in ("Cargo.toml", "Cargo.lock"):
             shutil.copy(os.path.join(extract.REPO, f), os.path.join(tmp, f))
         apply(tmp, m)
@@ -208,13 +286,13 @@ def load(name):
 
 
 def static(workers):
-    ms = load("mutants.jsonl")
-    done = {r["id"] for r in load("static.jsonl")}
+    ms = load(TAG + "mutants.jsonl")
+    done = {r["id"] for r in load(TAG + "static.jsonl")}
     todo = [m for m in ms if m["id"] not in done]
     for c in ("default", "all-features", "staking"):
         if not os.path.exists(os.path.join(extract.WORK, "cmd-%s.json" % c)):
             extract.extract(c, use_cache=False)
-    with open(os.path.join(OUT, "static.jsonl"), "a") as fh, ProcessPoolExecutor(max_workers=workers) as ex:
+    with open(os.path.join(OUT, TAG + "static.jsonl"), "a") as fh, ProcessPoolExecutor(max_workers=workers) as ex:
         for n, r in enumerate(ex.map(static_one, todo, chunksize=4)):
             fh.write(json.dumps(r) + "\n")
             if n % 100 == 0:
@@ -232,6 +310,9 @@ def tests_worker(args):
     try:
         for m in batch:
             subprocess.run(["git", "checkout", "--", "src"], cwd=root, check=True)
+            if BASE != extract.REPO:
+                shutil.rmtree(os.path.join(root, "src"))
+                shutil.copytree(os.path.join(BASE, "src"), os.path.join(root, "src"))
             apply(root, m)
             try:
                 r = subprocess.run(["cargo", "test", "--offline", "--all-features", "-q"], cwd=root, env=env, stdout=subprocess.PIPE, stderr=subprocess.STDOUT, text=True,
@@ -250,14 +331,14 @@ def tests_worker(args):
 
 
 def tests(workers):
-    ms = {m["id"]: m for m in load("mutants.jsonl")}
-    silent = [r["id"] for r in load("static.jsonl") if r["status"] == "silent"]
-    done = {r["id"] for r in load("tests.jsonl")}
+    ms = {m["id"]: m for m in load(TAG + "mutants.jsonl")}
+    silent = [r["id"] for r in load(TAG + "static.jsonl") if r["status"] == "silent"]
+    done = {r["id"] for r in load(TAG + "tests.jsonl")}
     todo = [ms[i] for i in silent if i not in done]
     batches = [(w, todo[w::workers]) for w in range(workers)]
     with ProcessPoolExecutor(max_workers=workers) as ex:
         res = [r for b in ex.map(tests_worker, batches) for r in b]
-    with open(os.path.join(OUT, "tests.jsonl"), "a") as fh:
+    with open(os.path.join(OUT, TAG + "tests.jsonl"), "a") as fh:
         for r in res:
             fh.write(json.dumps(r) + "\n")
     for w in range(workers):
@@ -267,9 +348,9 @@ def tests(workers):
 
 
 def report():
-    ms = {m["id"]: m for m in load("mutants.jsonl")}
-    st = {r["id"]: r for r in load("static.jsonl")}
-    ts = {r["id"]: r for r in load("tests.jsonl")}
+    ms = {m["id"]: m for m in load(TAG + "mutants.jsonl")}
+    st = {r["id"]: r for r in load(TAG + "static.jsonl")}
+    ts = {r["id"]: r for r in load(TAG + "tests.jsonl")}
     tot = {}
     for i, r in st.items():
         tot[r["status"]] = tot.get(r["status"], 0) + 1
@@ -284,7 +365,7 @@ def report():
     for i in sorted(live):
         m = ms[i]
         if m["file"] not in srcs:
-            with open(os.path.join(extract.REPO, m["file"])) as fh:
+            with open(os.path.join(BASE, m["file"])) as fh:
                 srcs[m["file"]] = fh.read().split("\n")
         old = srcs[m["file"]][m["line"]:m["line"] + m.get("span", 1)]
         print("%s %s:%d %s\n    - %s\n    + %s" % (i, m["file"], m["line"] + 1, m["op"], " | ".join(x.strip() for x in old), " | ".join(x.strip() for x in m["new"])))
